@@ -35,10 +35,10 @@ RULE = (
 )
 ASSUMPTIONS = [
     "the shim owns queue put/get/empty/qsize, the session flag and thread start/join; a thread that blocks on anything else ends the run as inconclusive",
-    "the calibration side is driven through the scheduler API exactly as Calibrator.calibrate() does (session(), get_next_sampler(), update())",
+    "the calibration side is driven through the scheduler API exactly as Calibrator.calibrate() does (session(), get_next_sampler(), update()) in two thirds of the cases and by a real Calibrator.calibrate() (scripted losses) in one third",
     "non-negative losses; once the best loss is exactly 0.0 no later batch can improve it, so the reward rule never divides by zero",
 ]
-REQUIRED_COUNTERS = {"schedules": 2000, "preempted_multi_session": 500, "cases": 30, "free_runs": 60, "free_line_events": 5000}
+REQUIRED_COUNTERS = {"cases_via_real_calibrator": 8, "schedules": 2000, "preempted_multi_session": 500, "cases": 30, "free_runs": 60, "free_line_events": 5000}
 SHARDS = {"quick": 16, "thorough": 16}
 SHARD_WATCHDOG = {"quick": 1500, "thorough": 10800}
 
@@ -54,7 +54,9 @@ def gen_cases(tier, seed):
         reps = 1 if tier == "quick" else 3
         for r in range(reps):
             cases.append({"mode": "controlled", "shape": list(sh), "agent": agents[(k + r) % 4], "loss": losses[(k // 2 + r) % 4],
-                          "halton_supplied": bool((k + r) % 3 == 0), "seed": seed, "k": k * 3 + r})
+                          "halton_supplied": bool((k + r) % 3 == 0), "seed": seed, "k": k * 3 + r,
+                          # every third case: the calibration side is a real Calibrator.calibrate() (seeding, sampling, simulation, loss)
+                          "via": "calibrator" if (k + r) % 3 == 1 else "scheduler_api"})
         k += 1
     nfree = 32 if tier == "quick" else 320
     for i in range(nfree):
@@ -166,6 +168,42 @@ def build_system(desc, rec, make_queue, patch_threading, flag_hook=None):
         rlmod.threading = old
 
     return sched, env, restore
+
+
+def drive_calibrator(desc, sched, env, rec, losses, queues, alive_fn):
+    """The calibration side is the real Calibrator: one calibrate(nb) per session, scripted losses (loss == |model output|)."""
+    from black_it.calibrator import Calibrator
+    from black_it.loss_functions.minkowski import MinkowskiLoss
+
+    from vlib import models as MM
+    from vlib.core import quiet
+
+    vals = [float(x) for x in losses] + [1.0] * 8
+    state = {"s": -1, "b": 0}
+    orig_next, orig_update = sched.get_next_sampler, sched.update
+
+    def next_sampler():
+        smp = orig_next()
+        idx = [i for i, x in enumerate(sched.samplers) if x is smp]
+        rec("run", state["s"], state["b"], idx[0] if idx else None, type(smp).__name__)
+        return smp
+
+    def update(batch_id, new_params, new_losses, new_simulated_data):
+        r = orig_update(batch_id, new_params, new_losses, new_simulated_data)
+        rec("update", state["s"], state["b"], float(np.min(new_losses)))
+        state["b"] += 1
+        return r
+
+    sched.get_next_sampler, sched.update = next_sampler, update
+    with quiet():
+        cal = Calibrator(loss_function=MinkowskiLoss(p=1), real_data=np.zeros((1, 1)), model=MM.Scripted(vals), parameters_bounds=[[0.0], [1.0]],
+                         parameters_precision=[0.001], ensemble_size=1, scheduler=sched, verbose=False, random_state=desc["seed"] % 997, n_jobs=1)
+    for s, nb in enumerate(desc["shape"]):
+        state["s"] = s
+        rec("session_start", s)
+        with quiet():
+            cal.calibrate(nb)
+        rec("session_end", s, list(queues["act"]()), ["None" if x is None else "outcome" for x in queues["out"]()], alive_fn())
 
 
 def drive(desc, sched, env, rec, losses, queues, alive_fn):
@@ -294,8 +332,8 @@ def run_controlled(desc, losses, prefix):
     sched, env, restore = build_system(desc, rec, make_queue, fake, flag_hook=lambda kind: ctl.yield_point(("flag", kind)))
     res = {"deadlock": False, "error": None, "unmanaged": None}
     try:
-        drive(desc, sched, env, rec, losses, {k: (lambda k=k: list(qs[k].items)) for k in qs},
-              lambda: [t.name for t in fake.created if t.is_alive()])
+        (drive_calibrator if desc.get("via") == "calibrator" else drive)(
+            desc, sched, env, rec, losses, {k: (lambda k=k: list(qs[k].items)) for k in qs}, lambda: [t.name for t in fake.created if t.is_alive()])
     except SC.Deadlock:
         res["deadlock"] = True
         res["deadlock_state"] = ctl.deadlock_state
@@ -359,6 +397,9 @@ def case_controlled(desc, ctx, out):
         c["random_schedules"] = c.get("random_schedules", 0) + 1
     c["schedules"] = c.get("schedules", 0) + nsched
     c["cases"] = c.get("cases", 0) + 1
+    if desc.get("via") == "calibrator":
+        c["cases_via_real_calibrator"] = c.get("cases_via_real_calibrator", 0) + 1
+        c["schedules_via_real_calibrator"] = c.get("schedules_via_real_calibrator", 0) + nsched
     out["evals"] += nsched
     wit = {"losses": losses}
     if first_bad is not None:
